@@ -775,6 +775,9 @@ Proof.
 Qed.
 
 (* ---- from reset ------------------------------------------------------------------------------- *)
+Lemma some_pair_inj : forall (a a' : sm_state) (b b' : bool), Some (a, b) = Some (a', b') -> a = a'.
+Proof. intros a a' b b' H. injection H. auto. Qed.
+
 Lemma sm_step_tsp : forall m i o m' ok, sm_step m i o = Some (m', ok) ->
   m_tsp m' = fst (tsp_step true (m_tsp m) (c_utmi i)) /\
   m_sp m' = Some (match m_sp m with Some x => x | None => c_speed i end).
@@ -784,7 +787,7 @@ Proof.
                   (match m_sp m with Some x => x | None => c_speed i end <=? 1))); [discriminate|].
   match type of H with context [sm_react ?a ?b ?c ?d ?e ?f ?g] => destruct (sm_react a b c d e f g) as [[[[ar' wt'] rx'] ea] q] end.
   match type of H with context [if ?c then None else _] => destruct c end; [discriminate|].
-  injection H as <- _. cbn [m_tsp m_sp]. auto.
+  rewrite <- (some_pair_inj _ _ _ _ H). cbn [m_tsp m_sp]. auto.
 Qed.
 
 Lemma joint_tsp : forall h s m s' m', c6_joint s m h = Some (s', m') ->
@@ -814,9 +817,9 @@ Lemma tsp_new_token_idle : forall filt h,
 Proof.
   intros filt h. destruct h as [|x h] using rev_ind; [reflexivity|]. clear IHh.
   rewrite regs_after_snoc, <- cur_pkt_closed_form. unfold cur_pkt. rewrite fold_left_app. cbn [fold_left].
-  unfold tok_event_of, pk_done, pk_next. destruct (fold_left pk_next h None) as [l|].
-  - destruct (d_act x); [cbn [apply_event t_new_token]; discriminate | reflexivity].
-  - cbn [apply_event t_new_token]. discriminate.
+  generalize (fold_left pk_next h None). intros [l|]; unfold tok_event_of, pk_done, pk_next.
+  - destruct (d_act x); [intro H; simpl in H; discriminate H | reflexivity].
+  - intro H. simpl in H. discriminate H.
 Qed.
 
 (* "A preceding corrupted, aborted or unrelated packet never causes a later valid SETUP transaction to be
@@ -856,7 +859,7 @@ Proof.
     as (A & B & C).
   subst outs n. rewrite run_app, <- Es.
   assert (L : length (run (c6_step true true) c6_init h) = length h) by apply run_length.
-  rewrite <- L, <- !Nat.add_assoc, !app_nth2_plus. auto.
+  rewrite <- L, <- !Nat.add_assoc, !app_nth2_plus. rewrite !Nat.add_assoc. auto.
 Qed.
 
 (* ---- soundness of `received` -------------------------------------------------------------------- *)
@@ -880,7 +883,7 @@ Proof.
   match type of H with context [sm_react ?a ?b ?c ?d ?e ?f ?g] =>
     destruct (sm_react a b c d e f g) as [[[[ar' wt'] rx'] ea] q] eqn:Hre end.
   match type of H with context [if ?c then None else _] => destruct c end; [discriminate|].
-  injection H as <- _. cbn [m_rx]. pose proof (sm_react_rx _ _ _ _ _ _ _ _ _ _ _ _ Hre) as P.
+  rewrite <- (some_pair_inj _ _ _ _ H). cbn [m_rx]. pose proof (sm_react_rx _ _ _ _ _ _ _ _ _ _ _ _ Hre) as P.
   destruct rx'; [exact I | tauto | tauto].
 Qed.
 
